@@ -15,16 +15,18 @@ theorem close_after_sep_array (xs : List JVal) (nm : Option Bytes) (rest : List 
     (hs : t.stack = ⟨.eatws, .arrayAfterSep, .arr xs, nm⟩ :: rest) :
     Reaches lc t l [93] { t with stack := ⟨.eatws, .finish, .arr xs, nm⟩ :: rest } l := by
   have hv' := hv; unfold NoVal at hv'
+  have hns' : t.flags &&& Generated.tokenerStrict = 0 := by simpa [Tok.strict] using hns
   intro c off rs
-  simp [run, peek, hv', feed, fuel, feedN, disp, hs, dEatws, dArray, isWs, setTop, lastOr, Tok.validateUtf8, hns]
+  simp [run, peek, hv', feed, fuel, feedN, disp, hs, dEatws, dArray, isWs, setTop, lastOr, Tok.validateUtf8, Tok.strict, hns']
 
 /-- default mode: `}` directly after a comma closes the object -/
 theorem close_after_sep_object (kvs : List (Bytes × JVal)) (nm : Option Bytes) (rest : List Level)
     (hs : t.stack = ⟨.eatws, .objectFieldStartAfterSep, .obj kvs, nm⟩ :: rest) :
     Reaches lc t l [125] { t with stack := ⟨.eatws, .finish, .obj kvs, nm⟩ :: rest } l := by
   have hv' := hv; unfold NoVal at hv'
+  have hns' : t.flags &&& Generated.tokenerStrict = 0 := by simpa [Tok.strict] using hns
   intro c off rs
-  simp [run, peek, hv', feed, fuel, feedN, disp, hs, dEatws, dObjectFieldStart, isWs, setTop, lastOr, Tok.validateUtf8, hns]
+  simp [run, peek, hv', feed, fuel, feedN, disp, hs, dEatws, dObjectFieldStart, isWs, setTop, lastOr, Tok.validateUtf8, Tok.strict, hns']
 
 end
 
